@@ -29,6 +29,8 @@ func TestCheck(t *testing.T) {
 		{Name: "journal", Cfg: hist.Config{PageSize: 512, Start: 3, R2Starts: "partitioned", Alphabet: alpha}, Depth: 4, Budget: 60 * time.Second},
 		{Name: "wal-2db", Cfg: hist.Config{PageSize: 4096, Start: 2, WAL: true, SecondDB: true, R2Starts: "absent", Alphabet: alpha}, Depth: 3, Budget: 60 * time.Second},
 	}
+	// re-creation with another page size than the dropped database had
+	jobs = append(jobs, hist.Job{Name: "journal-recreate-other-page-size", Cfg: hist.Config{PageSize: 512, Start: 3, R2Starts: "absent", Alphabet: []string{"tx:t1", "drop", "createps", "restart", "restartP", "part", "heal"}, Prelude: []string{"drop:a"}}, Depth: 3, Budget: 60 * time.Second})
 	if run.Thorough() {
 		jobs[0].Depth, jobs[0].Budget = 7, 20*time.Minute
 		jobs[1].Depth, jobs[1].Budget = 6, 20*time.Minute
